@@ -261,4 +261,13 @@ var props = map[string]*propCfg{
 		Quick:       []legCfg{mc("strings", "MC_C16", "C16_quick.cfg", 15*time.Minute), {Kind: "exec", Name: "kinds", Mode: "kinds", Timeout: 2 * time.Minute}},
 		Thorough:    []legCfg{mc("strings", "MC_C16", "C16_thorough.cfg", 90*time.Minute), mc("deep", "MC_C16", "C16_deep.cfg", 90*time.Minute), {Kind: "exec", Name: "kinds", Mode: "kinds", Timeout: 2 * time.Minute}},
 	},
+	"C17": {
+		ID: "C17", Level: "model_checking", Exhaustive: true,
+		Rule:        "Lexers.tla models DoubleQuotesToBackTick and FindArrayIndex / FixIdiomaticArray as coded next to the tokenizer model. TLC enumerates (a) token sequences of one to two quoted identifiers / single-quoted literals with every content of length <= MaxContent over {a, double quote, quote, back quote, backslash (literals only), [, ], space} in the double-quoted spelling and checks that the rewritten text is read by the tokenizer exactly like the back-quoted spelling (identifier and literal contents untouched); (b) every sequence of <= MaxBrTokens tokens over {[, ], a character, literals and identifiers containing brackets, quotes and a backslash} in the bracket spelling and checks that balanced ones become the ARRAY( ) spelling verbatim and unbalanced ones an error. Every text is replayed: the real rewriter's output must equal the specification's text (an error for unbalanced brackets, also through New: never a panic). End to end: reduced configurations of the C02 (projection), C12 (form x position matrix incl. ARRAY calls), C07 (CTEs / subqueries) and C01 families are executed under all 8 combinations of PostgresEscapingDialect / IdiomaticArrays / Wrapped, each rendered in the matching spelling (every identifier double-quoted, ARRAY as [ ], paths under root), and must return the exported result; Wrapped() is also compared with passing {root: input} explicitly. Non-trivial: every scanner case; engine cases with a non-empty result; distinct = distinct texts / (document, query).",
+		Assumptions: append([]string{"identifier contents containing a backslash are outside the claim: the double-quoted spelling has no unambiguous way to write them for DoubleQuotesToBackTick"}, baseAssumptions...),
+		Quick: []legCfg{mc("scanners", "MC_C17", "C17_quick.cfg", 10*time.Minute), mc("proj", "MC_C02", "C17_C02.cfg", 10*time.Minute), mc("matrix", "MC_C12", "C12_quick.cfg", 10*time.Minute),
+			mc("compose", "MC_C07", "C11_C07.cfg", 10*time.Minute)},
+		Thorough: []legCfg{mc("scanners", "MC_C17", "C17_thorough.cfg", 30*time.Minute), mc("proj", "MC_C02", "C17_C02.cfg", 10*time.Minute), mc("matrix", "MC_C12", "C12_thorough.cfg", 10*time.Minute),
+			mc("compose", "MC_C07", "C11_C07.cfg", 10*time.Minute), mc("where", "MC_C01", "C11_C01.cfg", 10*time.Minute)},
+	},
 }
